@@ -427,8 +427,12 @@ func TestC14Live(t *testing.T) {
 			for k := 0; k < n; k++ {
 				id++
 				tr := hlref.Tran{ID: id}
-				kind := []string{"getmsgs", "biglist", "pm", "broadcast", "newsget", "userlist", "chat"}[next(7)]
+				kind := []string{"getmsgs", "biglist", "pm", "broadcast", "newsget", "userlist", "chat", "clientinfo", "clientinfo", "download-req"}[next(10)]
 				switch kind {
+				case "clientinfo": // the text lists the transfers of the user it is about
+					tr.Type, tr.Fields = hlref.TranGetClientInfoText, []hlref.Field{fld(hlref.FUserID, hlref.BE16(1+next(len(cs))))}
+				case "download-req": // granted and never collected: the user's transfer table changes while others read it
+					tr.Type, tr.Fields = hlref.TranDownloadFile, []hlref.Field{sfld(hlref.FFileName, "000-"+strings.Repeat("x", 100)+".txt"), fld(hlref.FFilePath, p1("many"))}
 				case "getmsgs":
 					tr.Type = hlref.TranGetMsgs
 				case "biglist":
